@@ -9,6 +9,7 @@ of connection.ports / connection.original_ports (PortAdapter) and from the
 chosen per `variant` from boundary pools; observations are mapped back.
 """
 import json
+import struct
 
 from engine.core import Machinery
 from harness import rawbytes as rb
@@ -389,7 +390,13 @@ XIDS = [
     {1: 0, 2: 0xffffffff},
 ]
 STYPE = {"desc": rb.ST_DESC, "flow": rb.ST_FLOW, "aggr": rb.ST_AGGREGATE, "table": rb.ST_TABLE,
-         "port": rb.ST_PORT, "queue": rb.ST_QUEUE}
+         "port": rb.ST_PORT, "queue": rb.ST_QUEUE, "vendor": rb.ST_VENDOR}
+# statistics types OpenFlow 1.0 does not define ("unk"), per variant: the first free one, a middle one,
+# the one next to OFPST_VENDOR
+UNK_STYPE = [6, 0x7fff, 0xfffe]
+VENDOR_IDS = [0x00002320, 0xffffffff, 0x00000000]
+OPAQUE = ("vendor", "unk")
+MULTI = ("flow", "table", "port", "queue")
 EVENTS = {"desc": "SwitchDescReceived", "flow": "FlowStatsReceived", "aggr": "AggregateFlowStatsReceived",
           "table": "TableStatsReceived", "port": "PortStatsReceived", "queue": "QueueStatsReceived"}
 
@@ -455,6 +462,9 @@ class StatsAdapter(_Base):
     self.env.written()
     self.ev_con = []
     self.ev_nexus = []
+    self.since = {}          # request key -> tags of odd parts seen while its reply is incomplete
+    self.odd_open = set()
+    self.cur_since = []
     for t, name in EVENTS.items():
       self.con.addListenerByName(name, self._listener(self.ev_con, t))
       self.env.nexus.addListenerByName(name, self._listener(self.ev_nexus, t))
@@ -489,9 +499,18 @@ class StatsAdapter(_Base):
     if a == "Part":
       t, k, g = args["t"], args["k"], args["g"]
       self.cur_x = args["x"]
-      body = b"".join(entry_bytes(t, k, g, args["first"] + j) for j in range(args["n"]))
+      if t in OPAQUE:
+        # no aggregated event exists for these: the body is opaque data of n units
+        body = bytes((0xa0 + k + j) & 0xff for j in range(8 * args["n"]))
+        if t == "vendor":
+          body = struct.pack("!I", VENDOR_IDS[self.variant % len(VENDOR_IDS)]) + body
+        stype = UNK_STYPE[self.variant % len(UNK_STYPE)] if t == "unk" else STYPE[t]
+      else:
+        body = b"".join(entry_bytes(t, k, g, args["first"] + j) for j in range(args["n"]))
+        stype = STYPE[t]
       flags = 1 if args["more"] else 0          # OFPSF_REPLY_MORE, the only flag OpenFlow 1.0 defines
-      data = rb.stats_reply(STYPE[t], body, flags=flags, xid=self.xids[args["x"]])
+      data = rb.stats_reply(stype, body, flags=flags, xid=self.xids[args["x"]])
+      self._note_part(k, t, args["more"])
       self.with_listeners(args.get("raw", "none"), ["RawStatsReply"], lambda: self.feed(data))
     elif a == "Other":
       self.feed(self.other(args["kind"]))
@@ -499,7 +518,34 @@ class StatsAdapter(_Base):
       raise ValueError(a)
     if self.con.disconnected:
       return {"disconnected": True}
-    return {"con": list(self.ev_con), "nexus": list(self.ev_nexus)}
+    return {"con": list(self.ev_con), "nexus": list(self.ev_nexus), "free": []}
+
+  def _note_part(self, k, t, more):
+    """For failure signatures only: which parts of replies of NOT multipart-capable types (vendor /
+    unknown type / desc or aggregate with MORE) arrived while request k's reply was being assembled."""
+    self.cur_since = sorted(self.since.get(k, ()))
+    if t not in MULTI and (more or k in self.odd_open):
+      for j in self.since:
+        if j != k:
+          self.since[j].add(t)
+      if more:
+        self.odd_open.add(k)
+    if more:
+      self.since.setdefault(k, set())
+    else:
+      self.since.pop(k, None)
+      self.odd_open.discard(k)
+
+  def normalize(self, obs, exp):
+    """exp.free = the (type, xid) pairs whose events the spec leaves open in this step (the own events of a
+    desc / aggregate reply that is split although the type is not multipart-capable): not compared."""
+    if not (isinstance(obs, dict) and isinstance(exp, dict) and "con" in obs and "free" in obs):
+      return obs
+    free = exp.get("free") or []
+    for w in ("con", "nexus"):
+      obs[w] = [ev for ev in obs[w] if {"t": ev.get("t"), "x": ev.get("x")} not in free]
+    obs["free"] = free
+    return obs
 
   def other(self, kind):
     n = self.n
@@ -517,8 +563,17 @@ class StatsAdapter(_Base):
     if kind == "error":
       return rb.error(1, 1, b"12345678", xid=self.xids[2])
     if kind == "config":
-      import struct
       return rb.msg(rb.GET_CONFIG_REPLY, struct.pack("!HH", 0, 128), xid=self.xids[1])
+    if kind == "vendormsg":        # an OFPT_VENDOR message (not a statistics reply)
+      return rb.vendor(VENDOR_IDS[self.variant % len(VENDOR_IDS)], b"v" * (n % 5), xid=self.xids[1 + n % 2])
+    if kind == "echoreply":
+      return rb.echo_reply(b"y" * (n % 3), xid=self.xids[2])
+    if kind == "hello":
+      return rb.hello(xid=self.xids[1])
+    if kind == "features":         # another features reply on the established connection
+      R = lambda nm, h: {"name": nm, "hw": h, "st": 0}
+      return rb.features_reply(self.dpid, ports=self.ports_bytes([R("a", "A"), R("b", "B")]),
+                               xid=self.xids[1 + n % 2])
     raise ValueError(kind)
 
   def signature(self, st, obs):
@@ -532,6 +587,8 @@ class StatsAdapter(_Base):
       sig["final"] = not st["args"]["more"]
       if st["args"].get("raw", "none") != "none":
         sig["raw_listeners"] = st["args"]["raw"]
+      if self.cur_since:
+        sig["interleaved_with_split"] = ",".join(self.cur_since)
     else:
       sig["kind"] = st["args"]["kind"]
     if not isinstance(obs, dict) or "con" not in obs:
